@@ -137,7 +137,7 @@ GROUPS = {
     # C25: a schedule property; the finishing run task against the actor
     'direct_addr_update_bx': dict(
         unit='direct_addr_update.rs', props=['C25'],
-        bounds=dict(quick=['2', '0'], thorough=['4', '5']),
+        bounds=dict(quick=['3', '3'], thorough=['4', '5']),
         space='EVERY schedule (controlled scheduler; scheduling points = inside a report run, right after the done signal became visible, before each actor step; '
               'run tasks are spawned dynamically) of actor scripts with at most {0} update requests, interleaved with single reactions to a queued done signal, '
               'followed by draining (reacting to done signals until no run task is alive and the channel is empty); scripts with more than 2 requests with at most '
